@@ -48,3 +48,17 @@ claim(
     "Trusted: python ast, bfsa. Session keys are KEY_SIZE = 16 bytes. BF3 body clauses under C01/C03/C05.",
     "DESIGN.md section 4, C02",
 )
+claim(
+    "C04", "other",
+    "reader-grammar extraction bound to the documented layout; per-field coverage classification (MAC-covered / compared / region delimiter with enforced end); guard normal forms with structural dominance; exact-read rule on BytesReader",
+    "Decides that the integrity mechanism is complete: no field of the container is read and dropped; every field lies inside a verified MAC's coverage, is compared by a raising guard, or delimits a region whose end is enforced; both MAC guards have the documented coverage/IV/key, dominate acceptance and are skipped only for check_cmac=False; every region and the file must be fully consumed; BytesReader.read and read_int reject short and negative-size reads (necessary because the MACs are over zero-padded data); BF3 and BEC2 signature guards; the body of a BEC2 file is verified with the unwrapped key. The enumeration of all byte flips / truncations is not performed and MAC unforgeability is assumed.",
+    "Trusted: python ast, bfsa, spec/layout.json. AES-CBC-MAC unforgeability under an unknown key is assumed; the BEC2 header is protected per block (CRC inside the AES container / ECIES), not by a MAC.",
+    "DESIGN.md section 4, C04",
+)
+claim(
+    "C06", "other",
+    "path/provenance rule on get_raw_data; constant-argument audit of set_config; type-consistency rule (shape inference) for the ENC comparison; effect/exception rules for missing cipher; source-sink taint analysis over the term DAG",
+    "Decides: on the encryption arm get_raw_data returns create_AES128(session_key).encrypt(pad(self.blob)) (default zero IV) and the blob reaches the stored bytes only through the cipher; pad and the adapter append (-len) mod 16 zero bytes; set_config always builds its component with encrypt_by_session_key=True and tags TYPE=03 ENC=02 FMT=03 REBOOT=01; the reader compares the ENC tag with the one-byte encoding the writer emits (bytes vs bytes) and decrypts with the session key keeping the flag; base AES128 methods only raise, with no cipher registered the encryption arm has no normal exit, and no handler on the write path can complete normally; session key, security code, customer key and wrapped plaintext reach returned bytes only through encrypt / mac / sha256 / key positions; derived comments are identifier strings or constants. Correctness of the ciphertext bytes is C16's clause.",
+    "Trusted: python ast, bfsa. MAC / hash outputs are assumed not to reveal inputs.",
+    "DESIGN.md section 4, C06",
+)
